@@ -241,6 +241,9 @@ def against_4v1_distinct_x(y0: int, y1: int, y2: int, y3: int, ax: int, ay: int,
   # four points with pairwise distinct first coordinates (the smallest instance on which the divide-and-conquer
   # is_pareto_optimal_against really splits), second coordinates and the `against` point arbitrary
   xs = [0, 10, 20, 30]
+  sl = os.environ.get('VERIF_SLICE')
+  if sl is not None and (2 if strict else 0) + (1 if ax < 15 else 0) != int(sl):
+    return True
   return _check_against([xs, [y0, y1, y2, y3]], [[ax], [ay]], strict, (y0, y1, y2, y3, ax, ay, strict))
 
 
